@@ -189,6 +189,19 @@ class Check:
                     if got != want:
                         vio.append({'what': '%s without allow_incomplete: a collection %s roDelete is %s, expected %s' % (name, 'with its' if complete else 'without a', got, want),
                                     'case': {'kind': 'default-route', 'route': name, 'docs': docs_}, 'impl': got, 'expected': want})
+            # the very same document supplied twice is two messages, whichever way the collection is built (for from_files:
+            # one path listed twice, the second time in another spelling)
+            for label, docs_ in (('the roCreate twice', [ro_t, ap_t, rd_t, ro_t]), ('the roDelete twice', [ro_t, ap_t, rd_t, rd_t]),
+                                 ('another message twice', [ro_t, ap_t, rd_t, ap_t])):
+                for how in ('strings', 'files', 's3'):
+                    io = impl.run_coll(docs_, False, False, how=how, tmpdir=tmp)
+                    got = io.get('err0') or 'accepted'
+                    want = 'accepted' if label == 'another message twice' else 'InvalidMosCollection'
+                    n += 1
+                    sigs.add(('twice', label, how, got))
+                    if got != want:
+                        vio.append({'what': 'from_%s with %s: %s, expected %s' % (how, label, got, want),
+                                    'case': {'kind': 'twice', 'docs': docs_, 'how': how}, 'impl': got, 'expected': want})
         finally:
             s3mod.s3._client, s3mod.s3._resource = saved
             shutil.rmtree(tmp, ignore_errors=True)
@@ -206,6 +219,16 @@ class Check:
         if 'docs' not in case:
             return {'violation': False, 'note': str(rep.get('detail'))}
         flags = ['-O'] if case.get('flag') == '-O' else []
+        if case.get('kind') == 'twice':
+            import tempfile
+            import shutil
+            tmp = tempfile.mkdtemp(prefix='mosverif-c11-')
+            try:
+                io = impl.run_coll(case['docs'], False, False, how=case['how'], tmpdir=tmp)
+            finally:
+                shutil.rmtree(tmp, ignore_errors=True)
+            want_reject = case['docs'].count(case['docs'][0]) > 1 or len(case['docs']) != len(set(case['docs'])) and case['docs'][-1] == case['docs'][2]
+            return {'violation': (io.get('err0') == 'InvalidMosCollection') != bool(want_reject), 'impl': io.get('err0') or 'accepted'}
         if case.get('kind') == 'default-route':
             # replayed through from_strings without the keyword (the route itself is named in the report)
             case = dict(case, inc=None)
